@@ -40,7 +40,7 @@ def run(ctx):
         "Limits: field x shape (code points / bytes at, below, above 255; 1-, 2-, 4-byte characters) x path x version "
         "x content hash on receipt (match / mismatch re-parsed after redaction / mismatch unchanged by redaction), "
         "JSON sizes 65535/65536/65537, and every pair of excesses (field, byte-only | code points) on two of type / state key / sender / room ID / event size; "
-        "VersionTable: 16 versions x (getters + 34 probes). "
+        "VersionTable: 16 versions x (getters + 44 probes). "
         "distinct = distinct (parser, grammar description, verdict) / (variant, length, alphabet) / "
         "(family, path, version class, shape class, verdict) / (probe, outcome) classes"
         % ((3, 2, "7-value") if t == "quick" else (4, 3, "12-value")))
@@ -49,6 +49,11 @@ def run(ctx):
             ("Base64_gen", "Base64_gen_%s.cfg" % t, "b64"),
             ("Limits_gen", "Limits_gen_single_%s.cfg" % t, "limits"), ("Limits_gen", "Limits_gen_pair_%s.cfg" % t, "limits"),
             ("VersionTable_gen", "VersionTable_gen_%s.cfg" % t, "table")]
+    if t == "quick":
+        # quick: the full single-field and pair families run for one version per untrusted constructor (1, 10, 12;
+        # pairs also msc4014); the core of the single-field family runs for all 16 versions (the lenient byte limit
+        # is a per-version grant).  thorough: the full families for all 16 versions.
+        jobs.insert(3, ("Limits_gen", "Limits_gen_core_quick.cfg", "limits"))
 
     def replay(cmd, records):
         if cmd == "ident":
